@@ -191,53 +191,53 @@ def prove(pid, mod, tier, log):
                 res["broken"].append(f"{f}:{ln}: {' '.join(e.split())[:300]}")
             if not errs:
                 res["broken"].append("make failed: " + out[-400:])
-        files = cone([props_v, corr_v])
-        res["cone"] = files
-        res["obligations"] = count_obligations(files)
-        compiled = [f for f in files if os.path.exists(os.path.join(COQ, f[:-2] + ".vo"))
-                    and os.path.getmtime(os.path.join(COQ, f[:-2] + ".vo")) >= os.path.getmtime(os.path.join(COQ, f))]
-        res["discharged"] = count_obligations(compiled) if rc != 0 else res["obligations"]
-        bad = scan_forbidden(files)
-        if bad:
+    files = cone([props_v, corr_v])
+    res["cone"] = files
+    res["obligations"] = count_obligations(files)
+    compiled = [f for f in files if os.path.exists(os.path.join(COQ, f[:-2] + ".vo"))
+                and os.path.getmtime(os.path.join(COQ, f[:-2] + ".vo")) >= os.path.getmtime(os.path.join(COQ, f))]
+    res["discharged"] = count_obligations(compiled) if rc != 0 else res["obligations"]
+    bad = scan_forbidden(files)
+    if bad:
+        res["ok"] = False
+        res["broken"] += ["forbidden: " + b for b in bad]
+    # Print Assumptions: recompile the Props file (cheap: only `exact lemma`)
+    if rc == 0:
+        rc2, out2 = sh(["timeout", "600", "coqc", "-Q", ".", "MV", "-w", "-all", props_v], cwd=COQ)
+        if rc2 != 0:
             res["ok"] = False
-            res["broken"] += ["forbidden: " + b for b in bad]
-        # Print Assumptions: recompile the Props file (cheap: only `exact lemma`)
-        if rc == 0:
-            rc2, out2 = sh(["timeout", "600", "coqc", "-Q", ".", "MV", "-w", "-all", props_v], cwd=COQ)
-            if rc2 != 0:
+            res["broken"].append("Props recompile failed: " + out2[-300:])
+        thms = re.findall(r"^\s*(?:Theorem|Lemma|Example|Corollary)\s+(\w+)", strip_comments(open(os.path.join(COQ, props_v)).read()), re.M)
+        printed = re.findall(r"Print\s+Assumptions\s+(\w+)", strip_comments(open(os.path.join(COQ, props_v)).read()))
+        res["theorems"] = thms
+        missing = [t for t in thms if t not in printed]
+        if missing:
+            res["ok"] = False
+            res["broken"].append("no Print Assumptions for: " + ", ".join(missing))
+        blocks = re.split(r"(?=Closed under the global context|Axioms:)", out2)
+        axioms = []
+        nclosed = 0
+        for b in blocks:
+            if b.startswith("Closed under"):
+                nclosed += 1
+            elif b.startswith("Axioms:"):
+                axioms += re.findall(r"^([\w.']+)\s*:", b[len("Axioms:"):], re.M)
+        allowed = set(getattr(mod, "ALLOWED_AXIOMS", []))
+        res["axioms"] = {"closed": nclosed, "axioms": sorted(set(axioms))}
+        extra = sorted(set(a for a in axioms if a.split(".")[-1] not in allowed and a not in allowed))
+        if extra:
+            res["ok"] = False
+            res["broken"].append("unexpected axioms: " + ", ".join(extra))
+        if tier == "thorough" and getattr(mod, "COQCHK", True):
+            t0 = time.time()
+            rc3, out3 = sh(["timeout", "1800", "coqchk", "-silent", "-o", "-Q", ".", "MV", f"MV.Props.{pid}"], cwd=COQ)
+            res["coqchk_s"] = round(time.time() - t0, 1)
+            res["coqchk"] = "ok" if rc3 == 0 else "FAILED"
+            m = re.search(r"\* Axioms:(.*?)(?:\n\s*\*|\Z)", out3, re.S)
+            res["coqchk_axioms"] = " ".join(m.group(1).split()) if m else out3[-300:]
+            if rc3 != 0:
                 res["ok"] = False
-                res["broken"].append("Props recompile failed: " + out2[-300:])
-            thms = re.findall(r"^\s*(?:Theorem|Lemma|Example|Corollary)\s+(\w+)", strip_comments(open(os.path.join(COQ, props_v)).read()), re.M)
-            printed = re.findall(r"Print\s+Assumptions\s+(\w+)", strip_comments(open(os.path.join(COQ, props_v)).read()))
-            res["theorems"] = thms
-            missing = [t for t in thms if t not in printed]
-            if missing:
-                res["ok"] = False
-                res["broken"].append("no Print Assumptions for: " + ", ".join(missing))
-            blocks = re.split(r"(?=Closed under the global context|Axioms:)", out2)
-            axioms = []
-            nclosed = 0
-            for b in blocks:
-                if b.startswith("Closed under"):
-                    nclosed += 1
-                elif b.startswith("Axioms:"):
-                    axioms += re.findall(r"^([\w.']+)\s*:", b[len("Axioms:"):], re.M)
-            allowed = set(getattr(mod, "ALLOWED_AXIOMS", []))
-            res["axioms"] = {"closed": nclosed, "axioms": sorted(set(axioms))}
-            extra = sorted(set(a for a in axioms if a.split(".")[-1] not in allowed and a not in allowed))
-            if extra:
-                res["ok"] = False
-                res["broken"].append("unexpected axioms: " + ", ".join(extra))
-            if tier == "thorough" and getattr(mod, "COQCHK", True):
-                t0 = time.time()
-                rc3, out3 = sh(["timeout", "1800", "coqchk", "-silent", "-o", "-Q", ".", "MV", f"MV.Props.{pid}"], cwd=COQ)
-                res["coqchk_s"] = round(time.time() - t0, 1)
-                res["coqchk"] = "ok" if rc3 == 0 else "FAILED"
-                m = re.search(r"\* Axioms:(.*?)(?:\n\s*\*|\Z)", out3, re.S)
-                res["coqchk_axioms"] = " ".join(m.group(1).split()) if m else out3[-300:]
-                if rc3 != 0:
-                    res["ok"] = False
-                    res["broken"].append("coqchk failed: " + out3[-300:])
+                res["broken"].append("coqchk failed: " + out3[-300:])
     return res
 
 
